@@ -127,7 +127,7 @@ struct Pool {
 
 fn pool() -> &'static Pool {
     static POOL: OnceLock<Pool> = OnceLock::new();
-    POOL.get_or_init(|| {
+    POOL.get_or_init(|| with_fixed_entropy(|| {
         let systems = c11_systems();
         let mut pure_models = Vec::new();
         for (i, name) in [(1usize, "pcsaft_propane"), (6, "saftvrmie_ethane"), (0, "pr_propane"), (8, "pets_a")] {
@@ -140,7 +140,7 @@ fn pool() -> &'static Pool {
             refs: StdMutex::new(HashMap::new()),
             pure_models,
         }
-    })
+    }))
 }
 
 fn make_state(sys: &SystemDef, dense: bool, tidx: usize) -> State<Eos> {
